@@ -47,6 +47,7 @@ Methods == {
   M("p_err", "prod", FALSE, "ok", <<"emit", "raise">>, "ok"),
   M("p_err0", "prod", FALSE, "ok", <<"raise">>, "ok"),
   M("p_lograise", "prod", FALSE, "ok", <<"logemit", "lograise">>, "ok"),
+  M("p_log2", "prod", FALSE, "ok", <<"log2emit", "fin">>, "ok"),
   M("p_initerr", "prod", FALSE, "raise", <<>>, "ok"),
   M("p_nonstream", "prod", FALSE, "nonstream", <<>>, "ok"),
   [M("p_badp", "prod", FALSE, "ok", <<"emit", "fin">>, "ok") EXCEPT !.badp = TRUE],
@@ -69,6 +70,9 @@ Ticks(k) == IF k = 0 THEN <<>> ELSE <<"t">> \o Ticks(k - 1)
 OpsFor(m) == IF m.k = "unary" THEN (IF m.u \in {"logok", "lograise"} THEN {<<>>, <<"L">>} ELSE {<<>>})
              ELSE {Ticks(k) \o <<e>> : k \in 0..MaxTicks, e \in {"c", "x"}}
                   \cup (IF m.k = "prod" THEN {<<"i">>, <<"t", "i">>} ELSE {})
+                  \* "L" first: the client's log callback raises on every log batch it is handed (also while draining)
+                  \cup (IF \E j \in 1..Len(m.steps) : m.steps[j] \in {"logemit", "log2emit", "lograise"}
+                        THEN {<<"L", "t", "c">>, <<"L", "t", "x">>} ELSE {})
 CallDescs == UNION {{[m |-> mm.n, ops |-> o] : o \in OpsFor(mm)} : mm \in Methods}
 RECURSIVE SeqsUpTo(_, _)
 SeqsUpTo(S, n) == IF n = 0 THEN {<<>>} ELSE LET p == SeqsUpTo(S, n - 1) IN p \cup {Append(s, x) : s \in p, x \in S}
@@ -97,8 +101,9 @@ CStart ==
   /\ cli.pc = "idle" /\ cli.ip < NCalls
   /\ LET i == cli.ip + 1  m == Meth(Call(i).m) IN
      /\ c2s' = Append(c2s, [t |-> "req", m |-> m.n, cid |-> i])
-     /\ cli' = [cli EXCEPT !.ip = i, !.cid = i, !.op = 0, !.inOpen = FALSE, !.outOpen = FALSE, !.closed = FALSE,
-                           !.how = "none", !.logx = (Call(i).ops = <<"L">>),
+     /\ cli' = [cli EXCEPT !.ip = i, !.cid = i, !.inOpen = FALSE, !.outOpen = FALSE, !.closed = FALSE,
+                           !.how = "none", !.logx = (Call(i).ops # <<>> /\ Call(i).ops[1] = "L"),
+                           !.op = IF Call(i).ops # <<>> /\ Call(i).ops[1] = "L" THEN 1 ELSE 0,
                            !.pc = IF m.k = "unary" THEN "rd_unary" ELSE IF m.hdr THEN "rd_hdr" ELSE "sess"]
   /\ UNCHANGED <<s2c, srv, script, obs, badResp, broken>>
 
@@ -172,7 +177,11 @@ CReadOut ==
                   /\ UNCHANGED broken
              ELSE /\ broken' = TRUE /\ Obs(<<"transport_error">>) /\ cli' = [cli EXCEPT !.closed = TRUE, !.pc = "idle"]
                   /\ UNCHANGED <<c2s, badResp>>
-        ELSE CASE x.t = "l"  -> Own(x) /\ Obs(<<"log">>) /\ UNCHANGED <<cli, c2s, broken>>
+        ELSE CASE x.t = "l"  -> /\ Own(x) /\ UNCHANGED <<c2s, broken>>
+                                /\ IF cli.logx   \* tick()/exchange() lets the callback's exception escape; the session stays open,
+                                               \* the rest of this turn's output is still on the wire; the script goes to its exit op
+                                   THEN Obs(<<"callback_raised">>) /\ cli' = [cli EXCEPT !.pc = "sess", !.op = Len(Ops) - 1]
+                                   ELSE Obs(<<"log">>) /\ UNCHANGED cli
                [] x.t = "d"  -> /\ Own(x) /\ Obs(<<"data", x.i>>) /\ UNCHANGED <<c2s, broken>>
                                 /\ cli' = [cli EXCEPT !.pc = "sess"]
                [] x.t = "oe" -> Own(x) /\ Obs(<<"err", 0>>) /\ CloseWrite /\ cli' = EndSession(cli) /\ UNCHANGED broken
@@ -193,7 +202,10 @@ CDrain ==
                   THEN /\ Own(x) /\ UNCHANGED broken
                        /\ cli' = [cli EXCEPT !.pc = IF FixDrain \/ x.k # "err" THEN "idle" ELSE "leak"]
                   ELSE broken' = TRUE /\ cli' = [cli EXCEPT !.pc = "idle"] /\ UNCHANGED badResp
-        ELSE CASE x.t \in {"l", "d"} -> Own(x) /\ UNCHANGED <<cli, broken>>
+        ELSE CASE x.t \in {"l", "d"} -> /\ Own(x) /\ UNCHANGED broken
+                                         /\ IF x.t = "l" /\ cli.logx /\ ~FixDrain
+                                            THEN cli' = [cli EXCEPT !.pc = "idle"]      \* the callback's exception escapes close()
+                                            ELSE UNCHANGED cli
                [] x.t = "oe" -> Own(x) /\ UNCHANGED broken /\ cli' = [cli EXCEPT !.pc = IF FixDrain THEN "drain" ELSE "idle"]
                [] x.t = "oz" -> Own(x) /\ UNCHANGED broken /\ cli' = [cli EXCEPT !.pc = "idle"]
                [] OTHER      -> broken' = TRUE /\ cli' = [cli EXCEPT !.pc = "idle"] /\ UNCHANGED badResp
@@ -263,6 +275,7 @@ SLoop ==
                    L == [t |-> "l", cid |-> c]  E == [t |-> "oe", cid |-> c]  Z == [t |-> "oz", cid |-> c] IN
               (CASE st = "emit"     -> s2c' = s2c \o <<D>> /\ srv' = [srv EXCEPT !.k = @ + 1, !.ndata = @ + 1]
                  [] st = "logemit"  -> s2c' = s2c \o <<L, D>> /\ srv' = [srv EXCEPT !.k = @ + 1, !.ndata = @ + 1]
+                 [] st = "log2emit" -> s2c' = s2c \o <<L, L, D>> /\ srv' = [srv EXCEPT !.k = @ + 1, !.ndata = @ + 1]
                  [] st = "emitfin"  -> s2c' = s2c \o <<D, Z>> /\ srv' = [srv EXCEPT !.pc = "drain_in", !.ndata = @ + 1]
                  [] st = "fin"      -> s2c' = s2c \o <<Z>> /\ srv' = [srv EXCEPT !.pc = "drain_in"]
                  [] st = "raise"    -> s2c' = s2c \o <<E, Z>> /\ srv' = [srv EXCEPT !.pc = "drain_in"]
